@@ -257,7 +257,7 @@ def gen_struct(tier, rng, sel):
         if sel():
             yield ("envelope", raw)
     # pairs of mutations (error precedence); the random stream is consumed identically by every worker
-    npairs = 2500 if tier == "quick" else 400000
+    npairs = 2500 if tier == "quick" else 600000
     names = list(BASES)
     for _ in range(npairs):
         mine = sel()
